@@ -133,3 +133,36 @@ Proof.
   intros r p q [E|[E|[]]] Hq Hn; [discriminate E|]. injection E as <- <-.
   destruct Hq as [<-|[<-|[<-|[<-|[]]]]]; try discriminate Hn. vm_compute. reflexivity.
 Qed.
+
+(* update_thetas_realises is not vacuous on a compound step: "$THETA 1 2 3" + "$THETA 4 ; KA", in ONE
+   update THETA_2 is removed, THETA_3 gets a new value and a lower bound, KA stays, X is added (fixed, with
+   an upper bound): guard_plan holds, the texts are " 1  (0,3.5)" / " 4 ; KA" / "  (-INF,5.0,9.0) FIX ; X" and
+   the records re-read as the new list (default names are positional, hence THETA_2 for the moved one). *)
+Definition nX : text := T [88]%nat.
+Definition ex_new2 : list (nparam Z) :=
+  [(n1, P 10 MInf PInf false); (n3, P 35 (Fin 0%Z) PInf false); (nKA, P 40 MInf PInf false); (nX, P 50 MInf (Fin 90%Z) true)].
+Example realises_example :
+  guard_plan Z demo [w_names; w_single] ex_old ex_new2 = true
+  /\ map str (match update_thetas Z demo [w_names; w_single] ex_old ex_new2 with Ok l => l | Err _ => [] end)
+     = [T [32; 49; 32; 32; 40; 48; 44; 51; 46; 53; 41; 10]%nat; T [32; 52; 32; 59; 32; 75; 65; 10]%nat;
+        T [32; 32; 40; 45; 73; 78; 70; 44; 53; 46; 48; 44; 57; 46; 48; 41; 32; 70; 73; 88; 32; 59; 32; 88; 10]%nat]
+  /\ map snd (match bind (update_thetas Z demo [w_names; w_single] ex_old ex_new2) (reread Z demo []) with Ok l => l | Err _ => [] end)
+     = map snd ex_new2.
+Proof. repeat split; vm_compute; reflexivity. Qed.
+
+(* rv_plan_realises is not vacuous: three single $OMEGA records, create_joint_distribution of the first two
+   etas: the script removes two distributions and adds the joint one; the plan creates the BLOCK with eta
+   number 1 and rewrites the third record. *)
+Definition pd_name (i j : N) : text := [79; 77; 69; 71; 65; 95; 48 + i; 95; 48 + j]%N.
+Definition pd1 := mkPD 0 1 [pd_name 1 1].
+Definition pd2 := mkPD 1 1 [pd_name 2 2].
+Definition pd3 := mkPD 2 1 [pd_name 3 3].
+Definition pd12 := mkPD 3 2 [pd_name 1 1; pd_name 2 1; pd_name 2 2].
+Example rv_plan_example :
+  let old_names := [pd_name 1 1; pd_name 2 2; pd_name 3 3] in
+  let new_names := [pd_name 1 1; pd_name 2 1; pd_name 2 2; pd_name 3 3] in
+  g_aligned [] (inter_texts old_names new_names) [1; 1; 1]%nat (diff pdist_eqb [pd1; pd2; pd3] [pd12; pd3]) 0 = true
+  /\ rv_plan [] old_names new_names [1; 1; 1]%nat [pd1; pd2; pd3] [pd12; pd3] = Ok [PBlock pd12 1; PUpdate 2 pd3]
+  (* a record with three diagonal items is outside the guard *)
+  /\ g_aligned [] (inter_texts old_names new_names) [3]%nat (diff pdist_eqb [pd1; pd2; pd3] [pd12; pd3]) 0 = false.
+Proof. repeat split; vm_compute; reflexivity. Qed.
